@@ -78,12 +78,15 @@ structure DSt where
   nontrivial : Nat := 0
   mismatches : Nat := 0
   specfails : Nat := 0
+  lastXeNow : Int := 0
   silentFinNow : Int := 0      -- time of the last helper section that found its checkable gone from pending (no notify_all)
   lastSchedNow : Int := 0      -- time of the last scheduler section
   noWakeups : Nat := 0
   noWakeupCand : Option (Nat × Nat × Int × Int) := none   -- first candidate of the current case
   notifiedSinceSilent : Bool := true   -- a section that calls m_CV.notify_all() ran since that helper section
-  wakeup : Bool := false               -- scripted wake-up probe (script=wakeup)
+  wakeup : Bool := false               -- scripted wake-up probe (script=wakeup / wakeup_async)
+  wakeupAsync : Bool := false
+  wakeAsyncMedianUs : Int := 0
   wakeDelays : Array Int := #[]        -- probe: delay from a silent helper section to the next scheduler section
   wakeSamples : Nat := 0
   wakeMedianUs : Int := 0
@@ -315,7 +318,9 @@ def handleSched (d : DSt) (n : Nat) (kind : String) (c : Nat) (args obs : List S
     | none => mismatch d n "plugin-inc-without-spawn" c "-" "hs=0"
   | "pd", _, _ =>
     let d := if cst.m.hs > 0 then { d with exitBeforeInc := d.exitBeforeInc + 1 } else d
-    let d := if cst.m.inIdle then d else { d with exitNotIdle := d.exitNotIdle + 1 }
+    -- a finished process gives its unit back (no wake-up of the scheduler by itself); if its checkable is not idle,
+    -- NextCheckChangedHandler will not notify either (checkercomponent.cpp:336-337 returns before :344)
+    let d := if cst.m.inIdle then d else { d with exitNotIdle := d.exitNotIdle + 1, silentFinNow := d.lastXeNow, notifiedSinceSilent := false }
     match act d (.procExit c) c with
     | some d => return d
     | none => mismatch d n "process-exit-without-process" c "-" "procs=0"
@@ -355,7 +360,7 @@ def handleSched (d : DSt) (n : Nat) (kind : String) (c : Nat) (args obs : List S
       spec d n c [.loc c i p]
     | _, _, _, _ => IO.println s!"BADLINE line={n}"; return d
   | "xs", _, [_] => spec { d with execs := d.execs + 1 } n c [.execStart c]
-  | "xe", _, [_] => spec d n c [.execEnd c]
+  | "xe", _, [t] => spec { d with lastXeNow := (parseInt? t).getD d.lastXeNow } n c [.execEnd c]
   | _, _, _ => IO.println s!"BADLINE line={n}"; return d
 
 def handle (d : DSt) (n : Nat) (line : String) : IO DSt := do
@@ -374,7 +379,8 @@ def handle (d : DSt) (n : Nat) (line : String) : IO DSt := do
     match (kvGet rest "max") >>= parseInt?, (kvGet rest "n") >>= parseNat?, (kvGet rest "pool") >>= parseNat?,
           (kvGet rest "bound_ms") >>= parseInt? with
     | some mx, some nn, some pool, some bound =>
-      return { d with sched := true, wakeup := kvGet rest "script" == some "wakeup", wakeDelays := #[],
+      return { d with sched := true, wakeup := kvGet rest "script" == some "wakeup" || kvGet rest "script" == some "wakeup_async",
+                      wakeupAsync := kvGet rest "script" == some "wakeup_async", wakeDelays := #[],
                       schedCases := d.schedCases + 1, max := mx, counter := 0, boundUs := bound * 1000,
                       sp := { max := mx }, cs := Array.replicate (nn + pool) {} }
     | _, _, _, _ =>
@@ -430,9 +436,12 @@ def handle (d : DSt) (n : Nat) (line : String) : IO DSt := do
       let sorted := d.wakeDelays.qsort (· < ·)
       if sorted.size ≥ 6 then
         let med := sorted.getD (sorted.size / 2) 0
-        d := { d with wakeSamples := d.wakeSamples + sorted.size, wakeMedianUs := max d.wakeMedianUs med }
+        d := { d with wakeSamples := d.wakeSamples + sorted.size }
+        if d.wakeupAsync then d := { d with wakeAsyncMedianUs := max d.wakeAsyncMedianUs med }
+        else d := { d with wakeMedianUs := max d.wakeMedianUs med }
         if med ≥ 300000 then
-          IO.println s!"SPECFAIL line={n} case={d.caseNo} clause=liveness_wakeup_when_slot_freed cid=1 median_delay_us={med} samples={sorted.size}"
+          let cl := if d.wakeupAsync then "liveness_wakeup_when_process_finished" else "liveness_wakeup_when_slot_freed"
+          IO.println s!"SPECFAIL line={n} case={d.caseNo} clause={cl} cid=1 median_delay_us={med} samples={sorted.size}"
           d := { d with specfails := d.specfails + 1 }
       else d := { d with livenessInconclusive := d.livenessInconclusive + 1 }
     if overdue > d.boundUs then
@@ -478,4 +487,4 @@ def main : IO Unit := do
     s!"ops={d.ops} forces={d.forces} force_ambiguous={d.forceAmb} quiescent={d.quiescent} " ++
     s!"lat_lt1ms={d.lat1ms} lat_lt10ms={d.lat10ms} lat_lt100ms={d.lat100ms} lat_lt1s={d.lat1s} lat_ge1s={d.latMore} lat_max_us={d.latMaxUs} " ++
     s!"overdue_max_us={d.overdueMaxUs} canary_max_us={d.canaryMaxUs} max_parallel={d.maxParallel} " ++
-    s!"liveness_inconclusive={d.livenessInconclusive} late_after_silent_finish={d.noWakeups} wakeup_probe_samples={d.wakeSamples} wakeup_probe_median_us={d.wakeMedianUs} liveness_candidates={d.liveCands.size} nontrivial={d.nontrivial} mismatches={d.mismatches} specfails={d.specfails}")
+    s!"liveness_inconclusive={d.livenessInconclusive} late_after_silent_finish={d.noWakeups} wakeup_probe_samples={d.wakeSamples} wakeup_probe_median_us={d.wakeMedianUs} wakeup_async_probe_median_us={d.wakeAsyncMedianUs} liveness_candidates={d.liveCands.size} nontrivial={d.nontrivial} mismatches={d.mismatches} specfails={d.specfails}")
